@@ -1,6 +1,6 @@
 From Coq Require Import ZArith List String Bool.
 Import ListNotations.
-From TD Require Import Lib.Sexp Model.C14_Flow Model.C14_Interact.
+From TD Require Import Lib.Sexp Model.C14_Flow Model.C14_Interact Model.C14_Prob.
 Open Scope string_scope.
 
 Definition dec_key (s : sexp) : option key := dec_list dec_str s.
@@ -71,6 +71,59 @@ Definition enc_action (a : action) : sexp :=
   | ARaiseNotImpl => SA "raise-notimpl" | ARaiseRuntime => SA "raise-runtime"
   end.
 
+
+(* ---- probabilistic key plumbing (Model/C14_Prob.v) *)
+Definition dec_pargs (s : sexp) : option pargs :=
+  match s with
+  | SL [SZ i; ins; dict; outs; comp; rlp; lpk; lpks; dflt] =>
+      match dec_keys ins, dec_opt (dec_list dec_str) dict, dec_opt dec_keys outs, dec_opt dec_keys comp, dec_bool rlp,
+            dec_opt dec_key lpk, dec_opt dec_keys lpks, dec_itype dflt with
+      | Some a, Some b, Some c, Some d, Some e, Some f, Some g, Some h =>
+          if (i <? 0)%Z then None
+          else Some {| a_id := Z.to_nat i; a_in := a; a_dict := b; a_out := c; a_comp := d; a_rlp := e; a_lpk := f;
+                       a_lpks := g; a_default := h |}
+      | _, _, _, _, _, _, _, _ => None
+      end
+  | _ => None
+  end.
+Definition dec_dcap (s : sexp) : option dcap :=
+  match s with
+  | SL [lkj; hasdet; regk; support_real; mode; median; mean; has_rsample] =>
+      match dec_bool lkj, dec_bool hasdet, dec_opt dec_itype regk, dec_opt dec_bool support_real,
+            dec_cap mode, dec_cap median, dec_cap mean, dec_bool has_rsample with
+      | Some lkj, Some hd, Some rk, Some sr, Some mo, Some me, Some mn, Some hr =>
+          Some {| is_lkj := lkj; has_det := hd; reg := rk; support_real := sr; c_mode := mo; c_median := me; c_mean := mn;
+                  has_rsample := hr |}
+      | _, _, _, _, _, _, _, _ => None
+      end
+  | _ => None
+  end.
+Definition enc_dist (d : dist) : sexp :=
+  SL [SA "dist"; enc_nat (d_mod d); enc_list enc_str (d_kw d); enc_list (enc_opt enc_term) (d_ps d)].
+Definition enc_sval (v : sval) : sexp :=
+  match v with
+  | SUp t => SL [SA "up"; enc_term t]
+  | SSmp d a j => SL [SA "smp"; enc_dist d; enc_action a; enc_nat j]
+  end.
+Definition enc_pv (v : pv) : sexp :=
+  match v with
+  | PV t => SL [SA "v"; enc_term t]
+  | PS d a j => SL [SA "smp"; enc_dist d; enc_action a; enc_nat j]
+  | PL d j vs => SL [SA "lp"; enc_dist d; enc_opt enc_nat j; enc_list enc_sval vs]
+  end.
+Definition enc_ptd (t : ptd) : sexp := enc_list (fun kv => SL [enc_key (fst kv); enc_pv (snd kv)]) t.
+Definition enc_pres (r : pres) : sexp :=
+  match r with
+  | PDone x o => SL [SA "done"; enc_ptd x; enc_opt enc_ptd o]
+  | PRaise => SA "raise"
+  | POutside => SA "outside-model"
+  end.
+Definition enc_raise {A} (f : A -> sexp) (o : option A) : sexp := match o with Some a => f a | None => SA "raise" end.
+Definition enc_keys_of (now : bool) (m : pmod) : sexp :=
+  SL [enc_raise enc_keys (pm_out_keys now m); enc_raise enc_key (log_prob_key_of now m);
+      enc_raise enc_keys (log_prob_keys_of now m); enc_list enc_str (p_kw m); enc_keys (p_out m)].
+Definition dec_nodes (s : sexp) : option (list node) := dec_list dec_node s.
+
 Definition dispatch (cmd : string) (args : list sexp) : option sexp :=
   match cmd, args with
   | "io", [n] =>
@@ -102,6 +155,39 @@ Definition dispatch (cmd : string) (args : list sexp) : option sexp :=
       match dec_opt dec_keys ks, dec_keys up with
       | Some ks, Some up => Some (enc_bool (requires_sample ks up))
       | _, _ => None
+      end
+  | "pm-keys", [agg; now; a] =>
+      match dec_bool agg, dec_bool now, dec_pargs a with
+      | Some agg, Some now, Some a => Some (enc_raise (enc_keys_of now) (pm_init agg a))
+      | _, _, _ => None
+      end
+  | "pm-fwd", [f148; f149; agg; now; ctx; cap; a; present; tout; req] =>
+      match dec_bool f148, dec_bool f149, dec_bool agg, dec_bool now, dec_opt dec_itype ctx, dec_dcap cap, dec_pargs a,
+            dec_keys present, dec_opt dec_keys tout, dec_bool req with
+      | Some f148, Some f149, Some agg, Some now, Some ctx, Some cap, Some a, Some p, Some o, Some req =>
+          Some (match pm_init agg a with
+                | Some m => enc_pres (pm_forward f148 f149 now ctx cap m (lift (mk_in p)) (option_map (fun k => lift (mk_out k)) o) req)
+                | None => SA "init-raise"
+                end)
+      | _, _, _, _, _, _, _, _, _, _ => None
+      end
+  | "ps-fwd", [f148; f149; agg; now; ctx; cap; a; det; present] =>
+      match dec_bool f148, dec_bool f149, dec_bool agg, dec_bool now, dec_opt dec_itype ctx, dec_dcap cap, dec_pargs a,
+            dec_nodes det, dec_keys present with
+      | Some f148, Some f149, Some agg, Some now, Some ctx, Some cap, Some a, Some det, Some p =>
+          Some (match pm_init agg a with
+                | Some m =>
+                    let q := {| q_det := det; q_last := m |} in
+                    SL [enc_bool (q_requires_sample q);
+                        enc_raise (fun io => SL [enc_keys (fst io); enc_keys (snd io)]) (q_io now q);
+                        enc_pres (q_forward f148 f149 now ctx cap q (mk_in p));
+                        match q_get_dist q (mk_in p) with
+                        | Some (Some d) => enc_dist d | Some None => SA "raise" | None => SA "outside-model" end;
+                        match q_log_prob now q (mk_in p) with
+                        | Some (Some v) => enc_pv v | Some None => SA "raise" | None => SA "outside-model" end]
+                | None => SA "init-raise"
+                end)
+      | _, _, _, _, _, _, _, _, _ => None
       end
   | "interact", [it; lkj; hasdet; regk; support_real; mode; median; mean; has_rsample] =>
       match dec_itype it, dec_bool lkj, dec_bool hasdet, dec_opt dec_itype regk, dec_opt dec_bool support_real,
